@@ -265,18 +265,16 @@ def propagate_rebin_uncertainties(uncertainty, data, mask, operation, operation_
     new_uncertainty = uncertainty[0]  # Define uncertainty for initial iteration step.
     if operation_ignores_mask or mask is None:
         mask = False
+    if mask is False and operation_is_nantype:
+        # NaN data do not contribute to nan-type operations, so neither must their
+        # uncertainties. Treat them as masked from here on.
+        nan_mask = np.isnan(data)
+        if nan_mask.any():
+            mask = nan_mask
     if mask is False:
-        if operation_is_nantype:
-            nan_mask = np.isnan(data)
-            if nan_mask.any():
-                mask = nan_mask
-                idx = np.logical_not(mask)
-                mask1 = mask[1:]
-        else:
-            # If there is no mask and operation is not nan-type, build generator
-            # so non-mask can still be iterated.
-            n_pix_per_bin = data.shape[flat_axis]
-            mask1 = (False for i in range(1, n_pix_per_bin))
+        # If there is no mask, build generator so non-mask can still be iterated.
+        n_pix_per_bin = data.shape[flat_axis]
+        mask1 = (False for i in range(1, n_pix_per_bin))
     else:
         # Mask uncertainties corresponding to nan data if operation is nantype.
         if operation_is_nantype:
